@@ -12,6 +12,8 @@ call and ends every session, "lockSrvCloser" stops timers and the manager.
 * `shutdown_waiters_error`     — every blocked Lock call is completed with an error, none with a hold,
                                  and nothing is left blocked (so the manager's exclusive step is enabled:
                                  no hang in the model).
+* `shutdown_nothing_blocked`, `shutdown_answers_every_waiter` — no call is left pending, and every call that
+                                 was blocked gets its (error) answer.
 * `shutdown_then_start_restores` — the next start loads exactly the table that was there.
 * `old_order_loses_holds`      — refutation witness for the ORIGINAL order (D11, repaired): network
                                  closer first, flag later, and a live hold vanishes from the file.
@@ -91,6 +93,66 @@ theorem shutdown_waiters_error (s : St M) (live : List Sid) :
   simp only [shutdownSeq, List.foldl_cons, List.foldl_nil, closer, List.nil_append]
   simp only [abandonAll]
   exact abandonAll_events o _ _ _ _ (by intro x hx; cases hx)
+
+/-- what `abandonAll` leaves blocked and what it answers -/
+theorem abandonAll_pending : ∀ (ps : List Pending) (s : St M) (ev : List Event) (e : Err),
+    (ps.foldl (fun (acc : St M × List Event) p =>
+      let (s', ev) := abandon o acc.1 p e
+      (s', acc.2 ++ ev)) (s, ev)).1.pending = s.pending.filter (fun p' => ps.all (fun p => p'.req ≠ p.req)) ∧
+    (∀ p ∈ ps, Event.done p.req false p.key (some e) ∈ (ps.foldl (fun (acc : St M × List Event) p =>
+      let (s', ev) := abandon o acc.1 p e
+      (s', acc.2 ++ ev)) (s, ev)).2) ∧
+    (∀ x ∈ ev, x ∈ (ps.foldl (fun (acc : St M × List Event) p =>
+      let (s', ev) := abandon o acc.1 p e
+      (s', acc.2 ++ ev)) (s, ev)).2) := by
+  intro ps
+  induction ps with
+  | nil =>
+    intro s ev e
+    refine ⟨?_, by simp, fun x hx => hx⟩
+    symm; apply List.filter_eq_self.mpr; intros; rfl
+  | cons p ps ih =>
+    intro s ev e
+    simp only [List.foldl_cons]
+    obtain ⟨h1, h2, h3⟩ := ih (abandon o s p e).1 (ev ++ (abandon o s p e).2) e
+    refine ⟨?_, ?_, ?_⟩
+    · rw [h1]
+      simp only [abandon, List.filter_filter, List.all_cons]
+      congr 1
+      funext p'
+      simp only [Bool.and_comm]
+    · intro q hq
+      rcases List.mem_cons.mp hq with rfl | hq
+      · exact h3 _ (by simp [abandon])
+      · exact h2 q hq
+    · intro x hx
+      exact h3 x (List.mem_append_left _ hx)
+
+/-- **nothing is left blocked**: after the shutdown sequence no Lock call is pending any more, so nothing can
+keep the manager's closer (which needs every user of the table gone) waiting -/
+theorem shutdown_nothing_blocked (s : St M) (live : List Sid) :
+    (shutdownSeq o c Facts.mainCloserOrder s live).st.pending = [] := by
+  rw [order_pinned]
+  have h : (shutdownSeq o c ["lockSrv.SetShuttingDown", "netCloser", "lockSrvCloser"] s live).st.pending =
+      (s.pending.foldl (fun (acc : St M × List Event) p =>
+        let (s', ev) := abandon o acc.1 p .canceled
+        (s', acc.2 ++ ev)) (s, [])).1.pending := rfl
+  rw [h, (abandonAll_pending o s.pending s [] .canceled).1]
+  apply List.filter_eq_nil_iff.mpr
+  intro p hp h
+  have := List.all_eq_true.mp h p hp
+  simp at this
+
+/-- … and every call that was blocked when the signal came is answered (with the error of the previous theorem) -/
+theorem shutdown_answers_every_waiter (s : St M) (live : List Sid) :
+    ∀ p ∈ s.pending, Event.done p.req false p.key (some .canceled) ∈ (shutdownSeq o c Facts.mainCloserOrder s live).events := by
+  rw [order_pinned]
+  have h : (shutdownSeq o c ["lockSrv.SetShuttingDown", "netCloser", "lockSrvCloser"] s live).events =
+      [] ++ (s.pending.foldl (fun (acc : St M × List Event) p =>
+        let (s', ev) := abandon o acc.1 p .canceled
+        (s', acc.2 ++ ev)) (s, [])).2 := rfl
+  rw [h, List.nil_append]
+  exact (abandonAll_pending o s.pending s [] .canceled).2.1
 
 /-- the next start reads the table that was live at shutdown -/
 theorem shutdown_then_start_restores (s : St M) (live : List Sid) (hf : c.hasFile = true) :
